@@ -53,6 +53,6 @@ pub fn cli() -> (Args, Vec<Value>) {
             _ => i += 1,
         }
     }
-    std::panic::set_hook(Box::new(|_| {}));
+    common::install_panic_hook();
     (args, corpus)
 }
